@@ -146,6 +146,9 @@ def option_histories(rng, count):
         cls = rng.choice(sorted(OPT_POOLS))
         codes, lens, pad = OPT_POOLS[cls]
         lines = ['new ' + cls] + PREP.get(cls, [])
+        if cls == 'ICMPv6':
+            # every message type that carries neighbour-discovery options (router/neighbour solicitation and advertisement, redirect)
+            lines = ['new ICMPv6', 'set 0 type %d' % rng.choice([133, 134, 135, 136, 137])]
         base = len(lines)
         shadow, steps = [], []
         budget = 36 if cls in ('TCP', 'IP') else 100000
@@ -404,7 +407,7 @@ def run(ctx):
     xs = []
     for n in range(0, 25):
         for rep in range(2 if quick else 12):
-            hdrs = [(rng.choice([0, 43, 60]) if j or rng.random() < 0.5 else 0, bytes(rng.randrange(256) for _ in range(n if j == 0 else rng.randrange(0, 25)))) for j in range(rng.choice([1, 1, 2, 3]))]
+            hdrs = [(rng.choice([0, 43, 60, 51]) if j or rng.random() < 0.5 else 0, bytes(rng.randrange(256) for _ in range(n if j == 0 else rng.randrange(0, 25)))) for j in range(rng.choice([1, 1, 2, 3]))]
             hdrs = [(t if (t != 0 or j == 0) else 60, d) for j, (t, d) in enumerate(hdrs)]
             pl = bytes(rng.randrange(256) for _ in range(rng.choice([1, 8, 33])))
             lines = ['new IPv6'] + ['ext6 0 %d x%s' % (t, d.hex()) for t, d in hdrs] + ['push UDP', 'set 1 sport 1234', 'set 1 dport 53', 'raw x' + pl.hex(), 'ser', 'rt IPv6']
